@@ -267,6 +267,19 @@ fn run_float<F: Fl>(c: &Case) -> (O, Expect) {
                 "quantile::ci_max_size<8>" => quantile::ci_max_size::<F, Vec<F>, 8>(conf, &data, q),
                 _ => quantile::ci_max_size::<F, Vec<F>, 1024>(conf, &data, q),
             }));
+            if ep == "quantile::ci_sorted_unchecked" && !ca.nan {
+                // the same slice in arrival order (the caller's promise of sortedness is not checked): whatever comes
+                // back, it is not a panic and not an Ok interval with its bounds in the wrong order
+                let raw = of_float(call(|| quantile::ci_sorted_unchecked(conf, &a, q)));
+                let bad = match &raw {
+                    O::Ok(_, lo, hi) => lo > hi || lo.is_nan() || hi.is_nan(),
+                    O::Panic(_) => true,
+                    _ => false,
+                };
+                if bad {
+                    return (raw, Expect { applicable: vec![], panic_ok: None, class: "valid; data in arrival order".into() });
+                }
+            }
             let mut e = quantile_expect(n as u64, q);
             if ca.nan && n >= 2 && ep != "quantile::ci_sorted_unchecked" {
                 e.panic_ok = Some("incomparable elements while sorting");
